@@ -275,6 +275,6 @@ fn conflict() -> Status {
 fn topic_not_found(topic_name: &TopicName) -> Status {
     Status::not_found(format!(
         "Resource not found (resource={}).",
-        &topic_name.topic_id()
+        parser::echo(&topic_name.topic_id())
     ))
 }
